@@ -1979,6 +1979,12 @@ func (app *App) repairCascadeNode(node *mysql.Node, clusterState map[string]*nod
 
 		candidateState := clusterState[upstreamCandidate]
 		candidateNode := app.cluster.Get(upstreamCandidate)
+		if candidateState == nil || candidateNode == nil ||
+			(candidateState.IsMaster && candidateState.MasterState == nil) ||
+			(!candidateState.IsMaster && candidateState.SlaveState == nil) {
+			app.logger.Warn().Msgf("repair: state of new stream_from candidate %s is unknown, waiting", upstreamCandidate)
+			return
+		}
 		var candidateGTIDs gtids.GTIDSet
 		if candidateState.IsMaster {
 			candidateGTIDs = gtids.ParseGtidSet(candidateState.MasterState.ExecutedGtidSet)
@@ -2058,6 +2064,12 @@ func (app *App) findBestStreamFrom(node *mysql.Node, clusterState map[string]*no
 		}
 
 		candidateState := clusterState[streamFrom]
+		if candidateState == nil {
+			// stream_from points to a host which is not registered: look further up the chain
+			app.logger.Warn().Msgf("repair: stream_from host %s of %s is not a registered cluster host", streamFrom, host)
+			loopDetector = append(loopDetector, streamFrom)
+			continue
+		}
 
 		// if cascade node is streaming now from configured host - do nothing
 		if len(loopDetector) == 1 {
